@@ -2,7 +2,7 @@
    find_first_nonspace keep `offset <= first_nonspace <= |line|`; on a line that ends with LF and has no
    other LF the look-ahead byte line[first_nonspace] exists whenever the cursor has not passed the end. *)
 From Coq Require Import List NArith Arith Bool Lia Strings.String.
-From V Require Import Base.Bytes Base.Res Model.Ast Model.Strings Model.Blocks.
+From V Require Import Base.Bytes Base.Res Gen.BlocksConst Model.Ast Model.Strings Model.Blocks.
 Import ListNotations.
 Local Open Scope string_scope.
 Local Open Scope list_scope.
@@ -29,7 +29,7 @@ Proof.
     destruct (beqb b x09).
     + destruct columns.
       * set (ctt := tab_stop - col mod tab_stop).
-        assert (1 <= ctt) by (unfold ctt, tab_stop; pose proof (Nat.mod_upper_bound col 4 ltac:(lia)); lia).
+        assert (1 <= ctt) by (unfold ctt, tab_stop, gen_tab_stop; pose proof (Nat.mod_upper_bound col 4 ltac:(lia)); lia).
         destruct (Nat.ltb (S k) ctt) eqn:Lt.
         -- apply Nat.ltb_lt in Lt. rewrite Nat.min_l by lia. replace (S k - S k) with 0 by lia.
            destruct f; cbn; exists off, (col + S k), true; (split; [reflexivity | lia]).
